@@ -32,7 +32,7 @@ func c07Router(c *vk.Ctx) {
 			}
 		}
 	}
-	c.P.Rule = "E1: every schedule of one real RouterHandler with 2-3 client connections (each: session, writer script, reader) in 17 scenarios (subscribe/publish, matching and non-matching, replacement, CLOSE, two subscribers with the same id, two publishers, disconnect by cancel or inbound close at every cut point, stalled subscriber with buflen+2 publications, self-delivery, the publisher disconnecting at every cut point, a stalled and a healthy subscriber with one publication per phase, a second publication after the first phase is quiescent following REQ/CLOSE/REQ or a first REQ racing with a publication) x buflen {1,2}, plus variants with a scheduling point before every message a client sends; map iteration order in Publish is an explored choice; unbounded within a per-job budget, else complete up to a delay bound; oracle by real-time order of call/return stamps (must / may / must-not)"
+	c.P.Rule = "E1: every schedule of one real RouterHandler with 2-3 client connections (each: session, writer script, reader) in 18 scenarios (subscribe/publish, matching and non-matching, replacement, CLOSE, two subscribers with the same id, two publishers, disconnect by cancel or inbound close at every cut point, stalled subscriber with buflen+2 publications, self-delivery, a REQ with three filters of which two match, the publisher disconnecting at every cut point, a stalled and a healthy subscriber with one publication per phase, a second publication after the first phase is quiescent following REQ/CLOSE/REQ or a first REQ racing with a publication) x buflen {1,2}, plus variants with a scheduling point before every message a client sends; map iteration order in Publish is an explored choice; unbounded within a per-job budget, else complete up to a delay bound; oracle by real-time order of call/return stamps (must / may / must-not)"
 	res := runJobs(c, jobs)
 	for i, r := range res {
 		if i%6 == 0 {
